@@ -232,7 +232,7 @@ def main(argv=None):
             if k not in merged.max_target or v > merged.max_target[k]:
                 merged.max_target[k] = v
         if len(merged.samples) < 12:
-            merged.samples.extend(st["samples"][:1])
+            merged.samples.extend(st["samples"][-1:])
         found.extend(r["found"])
         if r["error"]:
             errors.append(f"{r['part']}/shard{r['shard']}: {r['error']}")
